@@ -309,6 +309,7 @@ class C19(Check):
 
     def install(self, ctx):
         E.install_standard(ctx)
+        ctx.uuid_chars = True
         ctx.extern_handlers["uuid.uuid4"] = c19_uuid4
         from checks import c19_cleanup
         c19_cleanup.install(ctx)
